@@ -23,3 +23,19 @@ package posix
 //@ func (*Posix) PutObjectRetention
 //@   at-call meta.MetadataStorer.StoreAttribute {C10} [retention-overwrite-rules] when $3 == objectRetentionKey :: \
 //@        requires errors.Is(err, meta.ErrNoSuchKey) || (lockCfg.Mode != types.ObjectLockRetentionModeCompliance && (lockCfg.Mode == types.ObjectLockRetentionModeGovernance ==> bypass))
+
+// ---- C02 / C06: an upload takes effect only after its body was read to the end without error ----
+// (the signature of a streaming upload, the content hashes and the declared length are verified by the
+// readers wrapped around the body, which report a mismatch as a read error at end of stream).
+//@ func (*Posix) PutObject
+//@   let bodyRead = called("io.Copy") && result("io.Copy", 1) == nil
+//@   at-call backend.MkdirAll {C02,C06} [mkdir-after-body] requires bodyRead
+//@   at-call meta.MetadataStorer.StoreAttribute {C02,C06} [attributes-after-body] requires bodyRead
+//@   at-call posix.Posix.createObjVersion {C02,C06} [version-copy-after-body] requires bodyRead
+//@   at-call posix.Posix.deleteNullVersionIdObject {C02,C06} [null-version-removal-after-body] requires bodyRead
+//@   at-call posix.tmpfile.link {C02,C06} [publication-after-body] requires bodyRead
+//@   at-call posix.Posix.storeChecksums {C02,C06} [checksums-after-body] requires bodyRead
+//@   at-call posix.Posix.storeObjectMetadata {C02,C06} [metadata-after-body] requires bodyRead
+//@   at-call posix.Posix.PutObjectTagging {C02,C06} [tags-after-body] requires bodyRead
+//@   at-call posix.Posix.PutObjectLegalHold {C02,C06} [hold-after-body] requires bodyRead
+//@   at-call posix.Posix.PutObjectRetention {C02,C06} [retention-after-body] requires bodyRead
